@@ -1,4 +1,4 @@
-import FcpptProofs.C08.Order
+import FcpptProofs.C08.Ext
 /-!
 # C08 — property theorems
 
@@ -85,6 +85,29 @@ theorem endPos_not_visited {mn sp : Pos} (hl : mn.length = sp.length) (hne : mn 
     (h : minLessSup mn sp = true) : ¬ InBox mn sp (endPos mn sp) := by
   simp only [endPos, h, if_true]
   exact endInit_not_inBox hl hne
+
+/-- the fold of `next_position` read literally (`fcppt::algorithm::fold` over the indices `0 … N-2`, reads and
+    writes by index) is the structurally recursive `next` every other theorem is about. -/
+theorem nextFold_eq_next (cur mn sp : Pos) (h1 : mn.length = cur.length) (h2 : sp.length = cur.length) :
+    nextFold cur mn sp = next cur mn sp :=
+  nextFold_eq cur mn sp h1 h2
+
+/-! ## the unsigned instantiation: arithmetic modulo `2^w` -/
+
+/-- with every multiplication and addition reduced modulo `2^w` (C++ unsigned arithmetic), `offset` and
+    `contents` are the reductions of the mathematical values — for **all** positions and sizes. -/
+theorem offsetW_is_wrapped_offset (w : Nat) (p d : List Int) :
+    offsetW w p d = wrap w (offset p d) ∧ contentsW w d = wrap w (contents d) :=
+  ⟨offsetW_eq_wrap w p d, contentsW_eq_wrap w d⟩
+
+/-- hence no wrap-around is ever visible for an in-range position of a grid whose content is representable
+    (which the allocation of the cells forces): the `w`-bit computation is the exact row-major index. -/
+theorem offsetW_exact {w : Nat} {d p : Pos} (h : InRange d p) (hc : contents d ≤ 2 ^ w) :
+    offsetW w p d = lin p d ∧ (contents d < 2 ^ w → contentsW w d = prod d) := by
+  have hl := offset_lt h
+  refine ⟨?_, fun hlt => ?_⟩
+  · rw [offsetW_eq_wrap, wrap_id w hl.1 (by omega), offset_eq_lin p d (inRange_length h).symm]
+  · rw [contentsW_eq_wrap, wrap_id w (by omega) hlt, contents_eq_prod]
 
 /-! ## position ranges -/
 
@@ -235,6 +258,15 @@ theorem fill_cell {α : Type} (g : Grid α) (hne : g.size ≠ []) (hd : NonNeg g
     ∃ r, g.fill f = .ok r ∧ r.size = g.size ∧ Denotes r f :=
   ⟨_, fill_denotes g hne hd hlen f, rfl, hne, hd, rfl⟩
 
+/-- **fillRange_cell**: assigning `f pos` through every reference of a pos-ref range whose box lies inside the
+    grid changes exactly the cells of the box: afterwards the cell at `p` is `f p` if `min ≤ p < sup` and the
+    old cell otherwise; size unchanged; no write outside the cells. -/
+theorem fillRange_cell {α : Type} {g : Grid α} {v : Pos → α} (hg : Denotes g v) {mn sp : Pos}
+    (hl : mn.length = sp.length) (hne : mn ≠ []) (hin : ∀ p, InBox mn sp p → InRange g.size p) (f : Pos → α) :
+    ∃ r, g.fillRange mn sp f = .ok r ∧ r.size = g.size ∧
+      Denotes r (fun p => if InBox mn sp p then f p else v p) :=
+  ⟨_, fillRange_denotes hg hl hne hin f, rfl, hg.1, hg.2.1, rfl⟩
+
 /-- iterating a pos-ref range whose box lies inside the grid yields every position of the box with its cell. -/
 theorem posRefRange_cells {α : Type} {g : Grid α} {v : Pos → α} (hg : Denotes g v) {mn sp : Pos}
     (hl : mn.length = sp.length) (hne : mn ≠ []) (hin : ∀ p, InBox mn sp p → InRange g.size p) :
@@ -291,6 +323,11 @@ example : posRange [0, 2, 0] [2, 1, 2] = .ok [] ∧ rangeSize [0, 2, 0] [2, 1, 2
 -- without the reset to `min` the carry would leave the box: the model's carry really resets
 example : next [1, 0] [0, 0] [2, 2] = [0, 1] := by decide
 example : Within [1, 0] [3, 2] [3, 2] := by simp [Within]
+-- the literal fold also tests an index whose predecessor did not carry (current position outside the box)
+example : nextFold [0, 2, 0] [0, 0, 0] [2, 2, 2] = [1, 0, 1] ∧ next [0, 2, 0] [0, 0, 0] [2, 2, 2] = [1, 0, 1] := by decide
+-- 2^32 x 2^32 cells: the 64-bit content wraps to 0, the offset of the last position to 2^64 - 1
+example : contentsW 64 [4294967296, 4294967296] = 0 ∧
+    offsetW 64 [4294967295, 4294967295] [4294967296, 4294967296] = 18446744073709551615 := by decide
 example : NonNeg [3, 0, 2] ∧ contents [3, 0, 2] = 0 := by
   refine ⟨?_, by decide⟩; intro x hx; simp at hx; omega
 example : Denotes (⟨[2, 2], [10, 11, 12, 13]⟩ : Grid Int) (fun p => 10 + lin p [2, 2]) := by
